@@ -801,7 +801,7 @@ def pick_model(kind, ans):
 def unit_jobs(ctx, cfgs):
     rng = ctx.subrng('units')
     jobs = []
-    n_per = ctx.scale(3, 14)
+    n_per = ctx.scale(3, 8)
     for ci, cfg in enumerate(cfgs):
         for l in LS:
             for i in range(n_per):
@@ -1299,7 +1299,7 @@ def build_jobs(ctx, search=False):
     max_m = ctx.scale(5, 7)
     cfgs = configs(max_m)
     jobs = []
-    nprog = ctx.scale(200, 1400) * (2 if search else 1)
+    nprog = ctx.scale(200, 800) * (2 if search else 1)
     max_depth = ctx.scale(4, 7)
     for i in range(nprog):
         l = LS[i % len(LS)]
@@ -1322,7 +1322,7 @@ def build_jobs(ctx, search=False):
     for uj in unit_jobs(ctx, ucfgs):
         jobs.append({'type': 'unit', 'job': uj})
     for ci, cfg in enumerate(cfgs):
-        for l in ([LS[ci % 5]] if not ctx.thorough else LS):
+        for l in ([LS[ci % 5]] if not ctx.thorough else [LS[ci % 5], LS[(ci + 2) % 5]]):
             jobs.append({'type': 'struct', 'cfg': list(cfg), 'l': l, 'seed': rng.randrange(1 << 30),
                          'sched': rng.choice(SCHED_MODES), 'chunk': rng.choice(CHUNKS[:3] if cfg[0] > 3 else CHUNKS)})
     # gcd family: exhaustive on m = 1
@@ -1330,6 +1330,8 @@ def build_jobs(ctx, search=False):
         allp = [(a, b) for a in range(-(1 << (l - 1)), 1 << (l - 1)) for b in range(-(1 << (l - 1)), 1 << (l - 1))]
         if l == 5 and not ctx.thorough:       # quick: exhaustive for l <= 4, a sample of 96 pairs for l = 5
             allp = rng.sample(allp, 96)
+        if l == 6:                            # thorough: exhaustive for l <= 5, a sample of 800 pairs for l = 6
+            allp = rng.sample(allp, 800)
         step = 24
         for s in range(0, len(allp), step):
             jobs.append({'type': 'gcd', 'cfg': [1, 0, bool((s // step) % 2)], 'l': l, 'pairs': allp[s:s + step], 'seed': rng.randrange(1 << 30)})
